@@ -468,7 +468,16 @@ func nameDecodingAs(c *Ctx, rule, user string, resIdx int) {
 	appended := false
 	for b := range inLoop {
 		for _, in := range b.Instrs {
-			if ci, ok := in.(*ssa.Call); ok && (calleeName(ci) == "(*bytes.Buffer).Write" || calleeName(ci) == "(*bytes.Buffer).WriteRune" || calleeName(ci) == "(*strings.Builder).WriteRune") {
+			isAppend := false
+			if ci, ok := in.(*ssa.Call); ok {
+				if bi, isB := ci.Call.Value.(*ssa.Builtin); isB && bi.Name() == "append" {
+					isAppend = true
+				}
+				if calleeName(ci) == "unicode/utf8.AppendRune" {
+					isAppend = true
+				}
+			}
+			if ci, ok := in.(*ssa.Call); ok && (isAppend || calleeName(ci) == "(*bytes.Buffer).Write" || calleeName(ci) == "(*bytes.Buffer).WriteRune" || calleeName(ci) == "(*strings.Builder).WriteRune") {
 				all := true
 				for lb := range inLoop {
 					for _, s := range lb.Succs {
@@ -489,6 +498,18 @@ func nameDecodingAs(c *Ctx, rule, user string, resIdx int) {
 		eachInstr(sf, func(in ssa.Instruction) { shortScan(in) })
 	}
 	_ = nShort
+	// library trimming of the result: only the one terminator (TrimSuffix with "\x00")
+	for _, sf := range scopeFuncs(fn, 1) {
+		for _, ci := range callsIn(sf) {
+			n := calleeName(ci)
+			if !strings.HasPrefix(n, "strings.Trim") && !strings.HasPrefix(n, "bytes.Trim") && n != "strings.Cut" && n != "bytes.Cut" && n != "strings.Split" && n != "strings.SplitN" && n != "bytes.IndexByte" && n != "strings.IndexByte" {
+				continue
+			}
+			suffix, isC := constString(arg(ci, 1))
+			good := (n == "strings.TrimSuffix" || n == "bytes.TrimSuffix") && isC && suffix == "\x00"
+			c.Check(good, rule, key+" "+n, ci.Pos(), "removes exactly one trailing NUL", "the decoded string is cut with "+n+": more than the one trailing terminator can be removed (or the string is cut at an inner NUL), so different wire strings become the same name")
+		}
+	}
 	c.Floor(rule, 3, "use, loop bound, every unit (+ terminator)")
 }
 
